@@ -99,7 +99,7 @@ Check(e) ==
     [] e.op = "cmpct" -> <<e.refused, e.out>> = CmpctExpected(e)
     [] e.op = "fill" -> <<e.refused, e.out>> = FillExpected(e)
 EventOK == i > 0 => Check(Trace[i])
-Diag == i > 0 => PrintT(<<"DIAG", i, Trace[i].op,
+Diag == i > 0 => PrintT(<<"DIAG", i, <<Trace[i].op,
                   CASE Trace[i].op = "root" -> <<ToHex(RootM(Trace[i].tag, Hs(Trace[i].leaves))[1]), RootM(Trace[i].tag, Hs(Trace[i].leaves))[2]>>
                     [] Trace[i].op = "branch" -> BranchRoot("h256", HX(Trace[i].leaf), Hs(Trace[i].branch), Trace[i].index)
                     [] Trace[i].op = "proof" -> ProofOK(Trace[i])
@@ -113,5 +113,5 @@ Diag == i > 0 => PrintT(<<"DIAG", i, Trace[i].op,
                     [] Trace[i].op = "fill" -> FillExpected(Trace[i])
                     [] Trace[i].op = "match" -> MatchBasic(HX(Trace[i].hash), Trace[i].n, HX(Trace[i].bytes), HX(Trace[i].element))
                     [] Trace[i].op = "decode" -> Decode(HX(Trace[i].bytes), Trace[i].n, BasicP, BasicM)
-                    [] OTHER -> "-">>)
+                    [] OTHER -> "-">>>>)
 =============================================================================
